@@ -1,16 +1,6 @@
 #!/bin/sh
-# Offline setup after a fresh restore: build the Coq development and warm the Go build cache.
-set -e
+# Offline setup after a fresh restore: generate Gen/*.v from /repo, build the whole Coq
+# development (full .vo build), build every Go driver against /repo (warms the Go build cache).
 cd "$(dirname "$0")"
-export GOFLAGS=-mod=mod GOPROXY=off
-unset GOSUMDB GOTOOLCHAIN
 mkdir -p run evidence replays harness/bin
-./harness/mkmod.sh
-if [ -d harness/tools/genconsts ]; then (cd harness && go run ./tools/genconsts "${VERIF_REPO:-/repo}" ../coq/Gen/Consts.v) ; fi
-./coq/mkproject.sh
-(cd coq && timeout 7200 make -j16 >/dev/null 2>run_make.log || { tail -50 run_make.log; exit 1; }; rm -f run_make.log)
-(cd "${VERIF_REPO:-/repo}" && go build ./... 2>/dev/null || true)
-for d in harness/*/; do
-  if [ -f "$d/main.go" ]; then (cd harness && go build -tags verif -o bin/$(basename $d) ./$(basename $d)) ; fi
-done
-echo setup done
+exec python3 lib/check.py --setup
